@@ -148,6 +148,26 @@ def gen_history(rng, n, d, ties=False, p_nan=None, grid=8):
     return rows
 
 
+def tie_candidate_ok(kind, d, rows, obs) -> bool:
+    """with tied ages: every returned entry must come from a visit at the greatest (present) age"""
+    for j in range(d):
+        colj = [(t, vals[j]) for t, vals in rows]
+        if kind == "last-known":
+            colj = [(t, v) for t, v in colj if not isnan(v)]
+            if not colj:
+                if not isnan(obs[j]):
+                    return False
+                continue
+        tmax = max(t for t, _ in colj)
+        cands = [v for t, v in colj if t == tmax]
+        if not any((isnan(v) and isnan(obs[j])) or v == obs[j] for v in cands):
+            return False
+    if kind == "last":   # and the whole row must be one visit
+        tmax = max(t for t, _ in rows)
+        return any(all((isnan(a) and isnan(b)) or a == b for a, b in zip(vals, obs)) for t, vals in rows if t == tmax)
+    return True
+
+
 def sig_const(kind, rows):
     import numpy as np
     ts = [t for t, _ in rows]
@@ -165,7 +185,7 @@ def const_direct(run: Run, n_cases: int):
     from leaspy.algo.personalize import ConstantPredictionAlgorithm
 
     algos = {k: ConstantPredictionAlgorithm(AlgorithmSettings("constant_prediction", prediction_type=k)) for k in KINDS}
-    cases, meta = [], []
+    cases, meta, tie_cases = [], [], []
     directed = [
         ("unit-test", [(31, [1.0, 0.5]), (32, [2.0, 0.5]), (34, [NAN, 2.0]), (33, [3.0, NAN])], 2),
         ("single-visit", [(70.0, [1.5, NAN])], 2),
@@ -199,8 +219,15 @@ def const_direct(run: Run, n_cases: int):
             tol = Fraction(1, 10 ** 12) if kind == "mean" else 0
             observed = cres("Empty") if err in ("IndexError", "ValueError") and not rows else (
                 cres("Shape") if err else cres(None, coq_list([cvalue(v) for v in obs])))
-            cases.append(f"({KINDS[kind]}, {d}%nat, {ctable(rows)}, {observed}, {q(tol)})")
-            meta.append((m, obs, err))
+            if has_tie and kind in ("last", "last-known"):
+                # the property does not say which of several visits of equal age is "the last": the tie-break is compared with
+                # the model for information only (the model mirrors today's stable sort), never reported as a failure
+                tie_cases.append(f"({KINDS[kind]}, {d}%nat, {ctable(rows)}, {observed}, {q(tol)})")
+                if err is None and not tie_candidate_ok(kind, d, rows, obs):
+                    run.fail(f"constant:{kind}", f"'{kind}' with tied ages returns a value that belongs to none of the latest visits", m, observed=obs)
+            else:
+                cases.append(f"({KINDS[kind]}, {d}%nat, {ctable(rows)}, {observed}, {q(tol)})")
+                meta.append((m, obs, err))
             nontriv = len(rows) >= 2 and (any(isnan(v) for _, vals in rows for v in vals) or [t for t, _ in rows] != sorted(t for t, _ in rows))
             run.case(("const-direct", kind, d, tuple((t, tuple(map(repr, v))) for t, v in rows)), nontrivial=nontriv)
             run.count("constant.direct.visits", len(rows))
@@ -233,6 +260,10 @@ def const_direct(run: Run, n_cases: int):
                  expected=show(ref_predict(m["kind"], m["d"], [(t, [NAN if v is None else v for v in vals]) for t, vals in m["rows"]])),
                  observed=obs if err is None else err)
     run.extra["constant_direct_cases"] = len(cases)
+    if tie_cases:
+        tb = run.vm_bad_indices("const_ties", HDR, "kind * nat * table * res (list value) * Q", tie_cases, "check_predict")
+        run.extra["tied_age_cases"] = len(tie_cases)
+        run.extra["tied_age_cases_where_tie_break_differs_from_model(informational)"] = None if tb is None else len(tb)
 
 
 def const_api(run: Run, n_datasets: int):
@@ -617,11 +648,11 @@ def lme_fitted(run: Run, n_cohorts: int, cases_p, meta_p, cases_t, meta_t, cases
                 ts = [t for o in cohort.values() for t, v in o if not isnan(v)]
                 mu = sum(ts) / len(ts)
                 sd = math.sqrt(sum((t - mu) ** 2 for t in ts) / len(ts))
-                if abs(p["ages_mean"] - mu) > 1e-4 or abs(p["ages_std"] - sd) > 1e-4:
-                    run.fail("lme:fit:normalisation", "stored ages_mean / ages_std are not the mean / std of the observed ages", m0,
-                             expected=[mu, sd], observed=[p["ages_mean"], p["ages_std"]])
+                # (informational: the normalisation is a gauge; what matters - personalisation and trajectory use the stored one, and
+                #  the result agrees with statsmodels - is checked below)
+                run.count("lme.fit.normalisation", "mean/population-std of observed ages" if abs(p["ages_mean"] - mu) < 1e-4 and abs(p["ages_std"] - sd) < 1e-4 else "other")
                 unscaled = np.array(P["cov_re"], dtype=float) / float(P["noise_std"]) ** 2
-                if float(np.abs(cov_inv @ unscaled - np.eye(len(cov_inv))).max()) > 1e-6:
+                if float(np.linalg.cond(unscaled)) < 1e6 and float(np.abs(cov_inv @ unscaled - np.eye(len(cov_inv))).max()) > 1e-6:
                     run.fail("lme:fit:cov-re-unscaled-inv", "cov_re_unscaled_inv is not the inverse of cov_re / noise_std^2", m0,
                              observed=dict(cov_re=np.array(P["cov_re"]).tolist(), noise_std=float(P["noise_std"]), cov_re_unscaled_inv=cov_inv.tolist()))
                 # (2) runtime oracle: statsmodels' own conditional means on the training individuals
